@@ -107,10 +107,10 @@ def rule_repr(ctx, rep):
 def rule_layout(ctx, rep):
     full = ctx.tier == "thorough"
     shapes = layout.shape_list(full)
-    lens = layout.len_list(full)
     cells_total = 0
     for tag, F, E in ctx.each(da=False):
         L = layout.Layouts(F)
+        lens = layout.len_list(full, F.pointer_bits)
         nsites = 0
         for b in F.body_list:
             B = cfg.Body(b)
@@ -158,7 +158,7 @@ def rule_layout(ctx, rep):
                                     req = (v[1], v[2])
                                 except layout.Panic:
                                     req = "panic"
-                                if ts > layout.ISIZE_MAX - (ta - 1):
+                                if ts > L.imax - (ta - 1):
                                     if req != "panic" and bad is None:
                                         bad = (sh, n, req, "overflow: the true size %d does not fit, yet a block of %s is requested instead of panicking" % (ts, req))
                                 elif req == "panic":
